@@ -50,3 +50,28 @@ Theorem C17_url_with_a_reading_is_routed :
     RM (r_root (oci_router m)) r i -> fits oci_chk r url vs -> rsearch oci_chk (oci_router m) url <> None.
 Proof. exact oci_fitting_url_is_routed. Qed.
 Print Assumptions C17_url_with_a_reading_is_routed.
+
+(* ---- the regenerated table against end-1..end-10 (closed computations over Gen/Oci.v, re-checked every run) ---- *)
+From WF Require Import Proofs.OciTableP.
+Print shape_template.
+Print spec_table.
+
+(* every route the example registers is the template of a specified (method, shape), with the specified handler *)
+Theorem C17_table_within_the_specification :
+  forallb (fun e => existsb (entry_eqb e) spec_table) oci_routes = true.
+Proof. exact table_within_spec. Qed.
+Print Assumptions C17_table_within_the_specification.
+
+(* every specified (method, shape) has its route and handler in the table - except end-5 (K1) *)
+Theorem C17_specification_within_the_table_except_end5 :
+  forallb (fun e => existsb (entry_eqb e) oci_routes || entry_eqb e END5) spec_table = true.
+Proof. exact spec_within_table_except_end5. Qed.
+Print Assumptions C17_specification_within_the_table_except_end5.
+
+Theorem C17_one_route_per_method_and_template :
+  forallb (fun e => Nat.eqb (length (filter (fun e' => beqb (fst (fst e)) (fst (fst e')) && beqb (snd (fst e)) (snd (fst e'))) oci_routes)) 1) oci_routes = true.
+Proof. exact no_duplicate_table_entries. Qed.
+Print Assumptions C17_one_route_per_method_and_template.
+
+(* is end-5 registered?  (false on the pinned example: known finding K1) *)
+Eval vm_compute in end5_present.
